@@ -103,6 +103,7 @@ def generate(X):
                         r = P.probe_case(t, dk, sc, seed, om)
                         if r is None:
                             continue
+                        r["kappa"] = P.probe_kappa(t, dk, sc, seed, om, r) if r["outcome"] == "ok" else None
                         k = (f, t.variant, om, P.form_of(r))
                         if k not in byform:
                             byform[k] = []
@@ -193,8 +194,10 @@ def generate(X):
         if not raised:
             for li, lf0 in enumerate(r0["leaves"]):
                 cls = "|".join(sorted({r["leaves"][li]["cls"] for r in recs}))
+                ks = {r["kappa"][li] for r in recs if r.get("kappa") is not None and li < len(r["kappa"])}
+                kappa = "1" if not ks else (next(iter(ks)) if len(ks) == 1 else "0")  # "0": varies with the shapes
                 if lf0["expo"] is None:
-                    leaves.append((lf0["carries"], cls, [("?", ("unknown",))]))
+                    leaves.append((lf0["carries"], cls, [("?", ("unknown",))], kappa))
                     continue
                 ex = []
                 names = sorted({k for r in recs for k in r["leaves"][li]["expo"]})
@@ -207,7 +210,7 @@ def generate(X):
                         e = leaf_expo(key, li, g)
                         if not (e[0] == "const" and Fraction(e[1]) == 0):
                             ex.append((g, e))
-                leaves.append((lf0["carries"], cls, ex))
+                leaves.append((lf0["carries"], cls, ex, kappa))
         out_label = None
         if not raised and om == "unyt" and any(r["out_label"] is not None for r in recs):
             labs = {tuple(sorted(r["out_label"].items())) for r in recs if r["out_label"] is not None}
@@ -220,7 +223,8 @@ def generate(X):
         out_rows.append(dict(func=f, variant=variant, out_mode=om, operands=r0["operands"], flags=r0["flags"], raised=raised,
                              exc="|".join(sorted({r["outcome"].split(":", 1)[1] for r in recs})) if raised else "",
                              leaves=leaves, out_label=out_label, n=len(recs), form=form,
-                             tail_repeats=bool(not raised and r0.get("tail_repeats", False))))
+                             tail_repeats=bool(not raised and r0.get("tail_repeats", False)),
+                             kappa_unobserved=(not raised and all(r.get("kappa") is None for r in recs))))
 
     statics = _static_expos(AF, C)
 
@@ -234,7 +238,7 @@ def generate(X):
     def lrow(r):
         ops = ", ".join(f"({L(n)}, {L(g)})" for n, g in r["operands"])
         fl = ", ".join(f"({L(n)}, {L(v)})" for n, v in r["flags"])
-        lv = ", ".join(f"⟨{'true' if c else 'false'}, {L(cls)}, {llabel(ex)}⟩" for c, cls, ex in r["leaves"])
+        lv = ", ".join(f"⟨{'true' if c else 'false'}, {L(cls)}, {llabel(ex)}, {lexpo(('const', kp))[7:]}⟩" for c, cls, ex, kp in r["leaves"])
         ol = "none" if r["out_label"] is None else f"some {llabel(r['out_label'])}"
         return (f"  ⟨{L(r['func'])}, {L(r['variant'])}, {L(r['out_mode'])}, [{ops}], [{fl}], {'true' if r['raised'] else 'false'}, "
                 f"{L(r['exc'])}, [{lv}], {ol}, {'true' if r['tail_repeats'] else 'false'}, {r['n']}⟩")
@@ -262,7 +266,8 @@ def generate(X):
         "statics": [(f, P.expo_wire(e)) for f, e in statics],
         "rows": [dict(func=r["func"], variant=r["variant"], out_mode=r["out_mode"], form=r["form"], operands=r["operands"],
                       flags=r["flags"], raised=r["raised"], exc=r["exc"], n=r["n"], tail_repeats=r["tail_repeats"],
-                      leaves=[dict(carries=c, cls=cls, expo=[(g, P.expo_wire(e)) for g, e in ex]) for c, cls, ex in r["leaves"]],
+                      leaves=[dict(carries=c, cls=cls, expo=[(g, P.expo_wire(e)) for g, e in ex], kappa=kp) for c, cls, ex, kp in r["leaves"]],
+                      kappa_unobserved=r["kappa_unobserved"],
                       out_label=None if r["out_label"] is None else [(g, P.expo_wire(e)) for g, e in r["out_label"]])
                  for r in out_rows],
     }
